@@ -173,6 +173,61 @@ fn adsr(props: &[&str], part: u64, parts: u64, out: &mut Out) {
     }
 }
 
+/// whole timed phases at the slow end of the range, tick by tick on the implementation (millions of ticks per phase, no
+/// counter shortcut): each must end, neither early nor late, and no call may panic on the way.  The configurations of
+/// part k are drawn from a generator seeded with k, plus the common audio rates in part 0.
+fn adsrlong(props: &[&str], part: u64, _parts: u64, out: &mut Out) {
+    let mut rng = crate::rng::Rng::new(0xAD5A_0000 + part);
+    let mut cfgs: Vec<(f32, f32)> = vec![];
+    let audio = [44100.0f32, 48000.0, 88200.0, 96000.0, 144000.0, 176400.0, 180000.0, 192000.0, 100.0, 32000.0];
+    cfgs.push((audio[(part % audio.len() as u64) as usize], [20.0f32, 30.0, 19.9][(part / 10 % 3) as usize]));
+    for _ in 0..8 {
+        let sr = match rng.below(3) {
+            0 => (rng.range(8, 384) * 500) as f32,
+            1 => rng.range(8000, 192000) as f32,
+            _ => 192000.0 - (rng.below(30000) as f32) * 0.37,
+        };
+        let t = match rng.below(4) {
+            0 => 20.0,
+            1 => 19.0 + rng.below(1000) as f32 / 1000.0,
+            2 => 5.0 + rng.below(15000) as f32 / 1000.0,
+            _ => 25.0,
+        };
+        cfgs.push((sr, t));
+    }
+    for (sr, tm) in cfgs {
+        for phase in 0..3 {
+            let mut ops = vec![
+                format!("adsr new {}", b(sr)),
+                format!("set a {}", b(if phase == 0 { tm } else { 0.001 })),
+                format!("set d {}", b(if phase == 1 { tm } else { 0.001 })),
+                format!("set r {}", b(if phase == 2 { tm } else { 0.001 })),
+                format!("set s {}", b(0.5)),
+                "gate_on".to_string(),
+            ];
+            let budget = 2 * (tm.min(20.0) as f64 * sr as f64) as u64 + 1000;
+            match phase {
+                0 => {}
+                1 => ops.push(format!("ticks {}", budget)), // the 1 ms attack
+                _ => {
+                    ops.push(format!("ticks {}", budget));
+                    ops.push(format!("ticks {}", budget));
+                    ops.push("gate_off".to_string());
+                }
+            }
+            ops.push(format!("ticks {}", budget));
+            ops.push("tick".to_string());
+            for p in props {
+                let r = run_trace(p, &ops);
+                out.evaluations += r.evaluations;
+                if !r.violations.is_empty() {
+                    out.hit(&ops);
+                }
+            }
+        }
+    }
+}
+
 /// every f32 in [0, 10] V through a quantizer without history, for the chromatic scale and a few sparse ones:
 /// stairstep = note/12, reconstruction, allowed pitch class, notes non-decreasing along the sweep
 fn quant(part: u64, parts: u64, out: &mut Out) {
@@ -239,6 +294,7 @@ pub fn main(args: &[String]) {
         "conv" => conv(part, parts, &mut out),
         "lfo" => lfo(&["C10", "C11", "C12"], part, parts, &mut out),
         "adsr" => adsr(&["C01", "C03"], part, parts, &mut out),
+        "adsrlong" => adsrlong(&["C02", "C17"], part, parts, &mut out),
         "quant" => quant(part, parts, &mut out),
         _ => {
             eprintln!("unknown sweep");
